@@ -605,6 +605,8 @@ def _p_edit(text, ops):
 
 
 PROBES = [
+    # (first: a sheet serialisation would reset what an earlier one has left in the serializer)
+    ('rules-alone', lambda: [cssutils.css.CSSStyleRule('d', 'top:0').cssText] + [r.cssText for r in cssutils.parseString('a{top:0}@media print{b{left:0}}c{x:y}').cssRules]),
     ('media-query', lambda: cssutils.parseString('@media screen and (min-width:1px), print{a{b:c}} x{y:1px 2px}')),
     ('media-comment-and', lambda: cssutils.parseString('@media screen/*c*/and (min-width:1px){a{color:red}}')),
     ('media-and(', lambda: cssutils.parseString('@media screen and(min-width:1px){a{color:red}} b{top:0}')),
@@ -621,7 +623,6 @@ PROBES = [
     ('dom-edits-accepted', lambda: _p_edit('a{color:red}', lambda s: (s.insertRule('b{top:0}', 1), s.cssRules[0].style.setProperty('left', '1px', 'important'),
                                                                        s.add('@media print{x{top:0}}'), s.cssRules[1].selectorList.appendSelector('c')))),
     ('validation', lambda: cssutils.parseString('a{color:1px;colr:red;top:red;opacity:0.5;x-c12:1}')),
-    ('rules-alone', lambda: [r.cssText for r in cssutils.parseString('a{top:0}@media print{b{left:0}}c{x:y}').cssRules] + [cssutils.css.CSSStyleRule('d', 'top:0').cssText]),
     ('variables', lambda: cssutils.parseString('@variables{c:red;d:1px}a{color:var(c);left:var(d);top:var(nope)}')),
     ('dom-edit-must-raise', lambda: _p_edit('a{color:red}', lambda s: setattr(s.cssRules[0], 'selectorText', 'a,,'))),
     ('parse-must-not-raise', lambda: cssutils.parseString('a{$;color:red;b:f(} }{ @import; @media screen and({} x{y:z}')),
